@@ -338,7 +338,15 @@ func runC05(c *Ctx) {
 	}
 	for _, rr := range rootsRecs {
 		if rr.err != nil || !strings.HasPrefix(rr.got, "roots:") {
+			// fault-free run, the session's listening stream is open and registered, its client
+			// answers every roots/list it receives: the answer of the addressed session is the one
+			// that must be accepted
 			s.Probe("c05.roots_failed")
+			what := rr.got
+			if rr.err != nil {
+				what = rr.err.Error()
+			}
+			s.Violate("C05|roots-request-failed|"+c05RootsClass(what), "ListRoots inside session %s (stream open, client answering, no fault) failed: %s", rr.se.name, short(what))
 			continue
 		}
 		s.Probe("c05.roots_ok")
@@ -592,6 +600,11 @@ func c05Legacy(c *Ctx) {
 	for _, rr := range rootsRecs {
 		if rr.err != nil || !strings.HasPrefix(rr.got, "roots:") {
 			s.Probe("c05.legacy_roots_failed")
+			what := rr.got
+			if rr.err != nil {
+				what = rr.err.Error()
+			}
+			s.Violate("C05|roots-request-failed|legacy|"+c05RootsClass(what), "ListRoots inside legacy session %s (stream open, client answering, no fault) failed: %s", rr.se.name, short(what))
 			continue
 		}
 		s.Probe("c05.legacy_roots_ok")
@@ -611,4 +624,14 @@ func c05Legacy(c *Ctx) {
 	for _, se := range sess {
 		se.cl.API.Close()
 	}
+}
+
+func c05RootsClass(m string) string {
+	switch {
+	case strings.Contains(m, "timeout"), strings.Contains(m, "deadline"):
+		return "timeout"
+	case strings.Contains(m, "no active SSE"), strings.Contains(m, "not found"):
+		return "no-stream"
+	}
+	return "other"
 }
